@@ -325,6 +325,28 @@ let handle (case : string) (out : string) : unit =
    | _ -> ());
   (* the property monitors on the implementation's transcript *)
   let isteps = List.rev !steps in
+  (* what kind of history this was *)
+  let has f = List.exists f isteps in
+  let ev_is c s = (match s.s_taken with Some { ev_peripheral = Some (_, e) } -> int_of_z (pevent_code e) = c | _ -> false) in
+  if has (fun s -> List.exists (function Some o -> o.ob_running | None -> false) s.s_obs) then count "dp:history:data-exchange-reached";
+  if has (fun s -> match s.s_in with InTo _ -> true | _ -> false) then count "dp:history:with-timeout";
+  if has (fun s -> match s.s_in with InAbandon -> true | _ -> false) then count "dp:history:with-inadmissible-reply";
+  if has (ev_is 6) then count "dp:history:with-offline-event";
+  if has (ev_is 6) && has (ev_is 0) then count "dp:history:offline-and-online";
+  if has (ev_is 2) || has (ev_is 3) then count "dp:history:with-prm-or-cfg-error";
+  if has (ev_is 5) then count "dp:history:with-diagnostics-event";
+  if has (fun s -> match s.s_in with InReqDiag _ | InWriteQ _ -> true | _ -> false) then count "dp:history:with-user-calls";
+  if has (fun s -> match s.s_in with InPower _ -> true | _ -> false) then count "dp:history:with-power-cycle";
+  if has (fun s -> match s.s_in with InClean -> true | _ -> false) then count "dp:history:with-fault-free-tail";
+  if has (fun s -> match s.s_out with OutTx (Some (_, None)) -> true | _ -> false) then count "dp:history:with-global-control";
+  if has (fun s -> match s.s_out with OutPanic -> true | _ -> false) then count "dp:history:ends-in-panic";
+  (* retransmissions: the same request bytes to the same address twice in a row *)
+  let rec retrans last = function
+    | [] -> false
+    | { s_out = OutTx (Some (w, Some _)) } :: r -> (match last with Some w0 when w0 = w -> true | _ -> retrans (Some w) r)
+    | { s_in = InRx _ } :: r -> retrans None r
+    | _ :: r -> retrans last r in
+  if retrans None isteps then count "dp:history:with-retransmission";
   let tsteps = List.map (fun s -> { ts_in = s.s_in; ts_raw = s.s_raw; ts_out = s.s_out; ts_taken = s.s_taken;
                                     ts_obs = s.s_obs; ts_op = s.s_op }) isteps in
   let texts = Array.of_list (List.map (fun s -> s.s_text) isteps) in
